@@ -260,7 +260,16 @@ func runE2E(r *ev.Run, id caseID) {
 		r.Inconclusive("create table: " + err.Error())
 		return
 	}
-	f, err := cluster.StartFollower(l.ReplAddr, cluster.FollowerOpts{Opts: cluster.Opts{Nodes: 1}})
+	var stall atomic.Int64 // ms every apply call of the follower's table is delayed by
+	var gate atomic.Bool   // while set, the follower's applied-index notifications for the table are held back
+	f, err := cluster.StartFollower(l.ReplAddr, cluster.FollowerOpts{Opts: cluster.Opts{Nodes: 1}, Hook: func(node uint64, table string, rev uint64) {
+		if ms := stall.Load(); ms > 0 && table == "t" {
+			time.Sleep(time.Duration(ms) * time.Millisecond)
+		}
+		for i := 0; gate.Load() && table == "r" && i < 1000; i++ { // closed gate: at most 2 s
+			time.Sleep(2 * time.Millisecond)
+		}
+	}})
 	if err != nil {
 		r.Inconclusive("follower start: " + err.Error())
 		return
@@ -293,12 +302,29 @@ func runE2E(r *ev.Run, id caseID) {
 		ctx, cancel := context.WithTimeout(context.Background(), 3*time.Second)
 		var err error
 		del := g.Intn(6) == 0
+		var ackRev uint64
 		if del {
-			_, err = kv.DeleteRange(ctx, &pb.DeleteRangeRequest{Table: []byte("t"), Key: key})
+			var dr *pb.DeleteRangeResponse
+			dr, err = kv.DeleteRange(ctx, &pb.DeleteRangeRequest{Table: []byte("t"), Key: key, Count: g.Intn(3) == 0, PrevKv: g.Intn(3) == 0})
+			ackRev = dr.GetHeader().GetRevision()
 		} else {
-			_, err = kv.Put(ctx, &pb.PutRequest{Table: []byte("t"), Key: key, Value: val})
+			var pr *pb.PutResponse
+			pr, err = kv.Put(ctx, &pb.PutRequest{Table: []byte("t"), Key: key, Value: val, PrevKv: g.Intn(4) == 0})
+			ackRev = pr.GetHeader().GetRevision()
 		}
 		cancel()
+		if err == nil {
+			if t, terr := f.Nodes[0].Engine.GetTable("t"); terr == nil {
+				ctx, cancel := context.WithTimeout(context.Background(), 2*time.Second)
+				li, lerr := t.LeaderIndex(ctx, false)
+				cancel()
+				if lerr == nil && li.Index < ackRev {
+					r.Violation("follower-acknowledges-before-applying-the-revision", fmt.Sprintf("write of %s was acknowledged by the follower API with revision %d while the node's table had applied leader index %d only", key, ackRev, li.Index), w)
+					return
+				}
+				r.Count("e2e_acks_checked_against_applied_index", 1)
+			}
+		}
 		w.Script = append(w.Script, fmt.Sprintf("write %s=%s -> %v", key, val, err))
 		if err != nil {
 			if status.Code(err) == codes.DeadlineExceeded {
@@ -338,6 +364,197 @@ func runE2E(r *ev.Run, id caseID) {
 			return
 		}
 		r.Count("e2e_follower_writes_read_back", 1)
+	}
+	// writes that change nothing on the leader: a key removed on the leader by another writer a
+	// moment ago is deleted again through the follower API (plain, with count, with prev_kv) while
+	// the follower applies slowly, i.e. has not yet applied the first removal. The acknowledgement
+	// carries revision R: the node's table must have applied a leader index >= R by then, and a read
+	// on the node must not return the key any more.
+	le := l.Nodes[0].Engine
+	followerIndex := func() (uint64, error) {
+		t, err := f.Nodes[0].Engine.GetTable("t")
+		if err != nil {
+			return 0, err
+		}
+		ctx, cancel := context.WithTimeout(context.Background(), 2*time.Second)
+		defer cancel()
+		li, err := t.LeaderIndex(ctx, false)
+		if err != nil {
+			return 0, err
+		}
+		return li.Index, nil
+	}
+	for i, nn := 0, r.Pick(12, 40); i < nn; i++ {
+		key := []byte(fmt.Sprintf("gone%d", i%3))
+		ctx, cancel := context.WithTimeout(context.Background(), 10*time.Second)
+		pr, err := le.Put(ctx, &pb.PutRequest{Table: []byte("t"), Key: key, Value: []byte(fmt.Sprintf("v%d", i))})
+		if err != nil {
+			cancel()
+			r.Count("e2e_writes_failed(not judged)", 1)
+			continue
+		}
+		for j := 0; j < 300; j++ {
+			if li, err := followerIndex(); err == nil && li >= pr.Header.Revision {
+				break
+			}
+			time.Sleep(10 * time.Millisecond)
+		}
+		stall.Store(int64(60 + g.Intn(120)))
+		dr, err := le.Delete(ctx, &pb.DeleteRangeRequest{Table: []byte("t"), Key: key})
+		if err != nil {
+			stall.Store(0)
+			cancel()
+			r.Count("e2e_writes_failed(not judged)", 1)
+			continue
+		}
+		req := &pb.DeleteRangeRequest{Table: []byte("t"), Key: key, Count: i%3 == 1, PrevKv: i%3 == 2}
+		fr, ferr := kv.DeleteRange(ctx, req)
+		li, lerr := followerIndex()
+		resp, rerr := kv.Range(ctx, &pb.RangeRequest{Table: []byte("t"), Key: key})
+		stall.Store(0)
+		cancel()
+		w.Script = append(w.Script, fmt.Sprintf("leader: put %s (rev %d), leader: delete %s (rev %d), follower API (applying slowly): delete %s count=%v prev_kv=%v -> %v", key, pr.Header.Revision, key, dr.Header.GetRevision(), key, req.Count, req.PrevKv, ferr))
+		if ferr != nil {
+			r.Count("e2e_writes_failed(not judged)", 1)
+			continue
+		}
+		if lerr == nil && li < fr.Header.GetRevision() {
+			r.Violation("follower-acknowledges-before-applying-the-revision", fmt.Sprintf("delete of %s (count=%v prev_kv=%v; the key had just been removed on the leader at revision %d) was acknowledged by the follower API with revision %d while the node's table had applied leader index %d only",
+				key, req.Count, req.PrevKv, dr.Header.GetRevision(), fr.Header.GetRevision(), li), w)
+			return
+		}
+		if rerr == nil && len(resp.Kvs) != 0 {
+			r.Violation("follower-read-misses-acknowledged-write", fmt.Sprintf("delete of %s (count=%v prev_kv=%v) was acknowledged by the follower API but a read on the same node still returns %q", key, req.Count, req.PrevKv, resp.Kvs[0].Value), w)
+			return
+		}
+		r.Count("e2e_follower_writes_read_back", 1)
+		r.Count("e2e_noop_deletes_of_keys_just_removed_on_leader", 1)
+	}
+	// restarted follower node: the engine of the follower node is restarted twice (its table then
+	// carries a local log index that differs from the leader index it has recorded), then writes go
+	// through its API one at a time. Each time the node's applied-index notification is held back
+	// until the handler has registered its waiter (observed as the queue length growing), so the
+	// known waiter-added-after-its-notification race is excluded by construction: such a write must
+	// be acknowledged.
+	{
+		// a young table: few leader entries, so that the restarts' own log entries count
+		if _, err := l.CreateTable("r"); err != nil {
+			r.Inconclusive("create table r: " + err.Error())
+			return
+		}
+		ctx, cancel := context.WithTimeout(context.Background(), 10*time.Second)
+		_, err := le.Put(ctx, &pb.PutRequest{Table: []byte("r"), Key: []byte("first"), Value: []byte("v")})
+		cancel()
+		if err != nil {
+			r.Inconclusive("leader write: " + err.Error())
+			return
+		}
+		for j := 0; j < 600; j++ {
+			if t, err := f.Nodes[0].Engine.GetTable("r"); err == nil {
+				ctx, cancel := context.WithTimeout(context.Background(), 2*time.Second)
+				li, lerr := t.LeaderIndex(ctx, false)
+				cancel()
+				if lerr == nil && li.Index > 0 {
+					break
+				}
+			}
+			time.Sleep(50 * time.Millisecond)
+		}
+		restarted := true
+		for rs := 0; rs < 3 && restarted; rs++ {
+			if err := f.RestartEngine(0); err != nil {
+				r.Inconclusive("follower engine restart: " + err.Error())
+				return
+			}
+			restarted = false
+			for j := 0; j < 600; j++ {
+				f.ReconcileAll()
+				_, e1 := f.Nodes[0].Engine.GetTable("t")
+				_, e2 := f.Nodes[0].Engine.GetTable("r")
+				if e1 == nil && e2 == nil {
+					restarted = true
+					break
+				}
+				time.Sleep(100 * time.Millisecond)
+			}
+			r.Count("e2e_follower_engine_restarts", 1)
+			if restarted && rs < 2 {
+				// one replicated write between two restarts
+				ctx, cancel := context.WithTimeout(context.Background(), 10*time.Second)
+				pr, err := le.Put(ctx, &pb.PutRequest{Table: []byte("r"), Key: []byte(fmt.Sprintf("between-restarts-%d", rs)), Value: []byte("v")})
+				cancel()
+				if err != nil {
+					r.Inconclusive("leader write: " + err.Error())
+					return
+				}
+				for j := 0; j < 600; j++ {
+					if t, err := f.Nodes[0].Engine.GetTable("r"); err == nil {
+						ctx, cancel := context.WithTimeout(context.Background(), 2*time.Second)
+						li, lerr := t.LeaderIndex(ctx, false)
+						cancel()
+						if lerr == nil && li.Index >= pr.Header.Revision {
+							break
+						}
+					}
+					time.Sleep(20 * time.Millisecond)
+				}
+			}
+		}
+		if !restarted {
+			r.Inconclusive("the replicated table did not come back after a follower engine restart")
+			return
+		}
+		conn2, err := cluster.Dial(f.N[0].APIAddr)
+		if err != nil {
+			r.Inconclusive(err.Error())
+			return
+		}
+		defer conn2.Close()
+		kv = pb.NewKVClient(conn2)
+		for i := 0; i < 8; i++ {
+			key := []byte(fmt.Sprintf("after-restart-%d", i))
+			before := f.N[0].Queue.Len("r")
+			gate.Store(true)
+			ch := make(chan error, 1)
+			go func() {
+				ctx, cancel := context.WithTimeout(context.Background(), 4*time.Second)
+				defer cancel()
+				_, err := kv.Put(ctx, &pb.PutRequest{Table: []byte("r"), Key: key, Value: []byte("v")})
+				ch <- err
+			}()
+			registered := false
+			for j := 0; j < 1000 && !registered; j++ {
+				if f.N[0].Queue.Len("r") > before {
+					registered = true
+					break
+				}
+				select {
+				case err := <-ch: // answered before any waiter was seen (error from the leader, ...)
+					ch <- err
+					j = 1000
+				default:
+					time.Sleep(2 * time.Millisecond)
+				}
+			}
+			gate.Store(false)
+			err := <-ch
+			w.Script = append(w.Script, fmt.Sprintf("after 2 follower engine restarts: put %s through the follower API (waiter registered before the notification: %v) -> %v", key, registered, err))
+			if err == nil {
+				r.Count("e2e_writes_after_restart_acked", 1)
+				continue
+			}
+			if registered && status.Code(err) == codes.DeadlineExceeded {
+				ctx, cancel := context.WithTimeout(context.Background(), 3*time.Second)
+				resp, rerr := kv.Range(ctx, &pb.RangeRequest{Table: []byte("r"), Key: key})
+				cancel()
+				if rerr == nil && len(resp.Kvs) == 1 {
+					r.Violation("registered-waiter-never-answered-although-the-node-applied-the-revision",
+						fmt.Sprintf("put %s through the API of the restarted follower node: the waiter was registered before the node applied the write, the node applied it (a read returns it), yet the call ended with DeadlineExceeded after 4 s", key), w)
+					return
+				}
+			}
+			r.Count("e2e_writes_failed(not judged)", 1)
+		}
 	}
 	// concurrent phase: several clients write large values through the follower API at once (so
 	// that one replication response carries several proposals' worth of commands) and read them back
